@@ -6,7 +6,10 @@ import os, re
 VERIF = os.path.dirname(os.path.dirname(os.path.abspath(__file__)))
 SHADOW_DIR = os.path.join(VERIF, "sim", "qrlew-shadow")
 
-def generate(repo="/repo"):
+def generate(repo="/repo", shadow_dir=None):
+    global SHADOW_DIR
+    if shadow_dir:
+        SHADOW_DIR = shadow_dir
     src = open(os.path.join(repo, "Cargo.toml")).read()
     # replace the [lib] section
     out, skipping = [], False
